@@ -142,6 +142,15 @@ theorem searchPos_fr (hI : VEInv I) (hE : PanicOk E) (key : Edge α) (l : List N
   | cons k ks ih => unfold searchPos; pres_auto
 
 
+theorem noteMono_fr (hI : VEInv I) (hE : PanicOk E) (key : Edge α) (l : List Nat) :
+    Fr I E (noteMono key l : SM α _) := by
+  apply Pres.intro; intro s hs
+  exact ⟨hI s _ rfl rfl hs, trivial⟩
+
+theorem search_fr (hI : VEInv I) (hE : PanicOk E) (key : Edge α) (l : List Nat) :
+    Fr I E (search key l : SM α _) := by
+  unfold search; pres_auto
+
 theorem activeInsert_fr (hI : VEInv I) (hE : PanicOk E) (ei : Nat) :
     Fr I E (activeInsert ei : SM α _) := by
   unfold activeInsert; pres_auto
